@@ -450,6 +450,9 @@ func hashString(s string) uint64 {
 
 // DischargeAll runs obligations in parallel. Sequence: quick pass with z3-new only, then the
 // full portfolio (with retries on different seeds) for anything not decided.
+// fastDischarge: one attempt per obligation (used when making sweep lists: what does not discharge at once is not claimed)
+var fastDischarge bool
+
 func DischargeAll(obls []*Obligation, workdir string, timeoutS int, par int, seed int, thorough bool) {
 	var wg sync.WaitGroup
 	sem := make(chan struct{}, par)
@@ -472,7 +475,7 @@ func DischargeAll(obls []*Obligation, workdir string, timeoutS int, par int, see
 				return
 			}
 			o.Discharge(workdir, first, false, seed)
-			if o.Result == "unsat" || o.Result == "sat" {
+			if o.Result == "unsat" || o.Result == "sat" || fastDischarge {
 				return
 			}
 			total := o.TimeS
